@@ -29,10 +29,13 @@ CONFIG = dict(
     mode="accept",
     reset_prefix="reset",
     runs={
-        "quick": [dict(name="main", env={"VERIF_N": "700"}, timeout=120)],
+        "quick": [dict(name="main", env={"VERIF_N": "600"}, timeout=120),
+                  # the same generators on one P: woken goroutines run late, a systematically different family of schedules
+                  dict(name="p1", env={"VERIF_N": "150"}, procs=1, seed_offset=500, timeout=120)],
         "thorough": [dict(name="main", env={"VERIF_N": "6000"}, timeout=600),
                      dict(name="seed2", env={"VERIF_N": "5000"}, seed_offset=1000, timeout=600),
                      dict(name="seed3", env={"VERIF_N": "5000"}, seed_offset=2000, timeout=600),
+                     dict(name="p1", env={"VERIF_N": "3000"}, procs=1, seed_offset=3000, timeout=600),
                      dict(name="exhaustive", test="TestExhaustive", timeout=600)],
     },
     trivial=r"^(-|ok|ok cap=\d+|bad-op|exec=- .*)?$",
@@ -43,7 +46,10 @@ CONFIG = dict(
          "poster ok/nil/blocked/panicked counts; the log must be accepted by the model (nondeterministic interleavings) and satisfy the property predicate. "
          "Waterfall cases: chains of length 0-6 through waterfall.Sche / Builder, every error position, task completion sync / from another goroutine / "
          "later via goroutine, caller, timer or a posted closure / never / twice / panicking before or after completing, several chains interleaved, "
-         "completions after Stop; events compared one by one with the model. A deterministic sweep (every length x error position x mode, every fill "
+         "chains started from the test goroutine / a foreign goroutine / a closure on the consumer, with the consumer idle or parked behind "
+         "0/3/997/998/999 queued closures (the starter then blocks in Post on the full channel), each task checked for a usable callback, "
+         "completions after Stop; events compared one by one with the model. A second run repeats the generators on one P (GOMAXPROCS=1: woken goroutines "
+         "run late). A deterministic sweep (every length x error position x mode, every fill "
          "level x both consumers) runs first. Non-trivial = an op on which at least one closure/task/final ran; distinct = distinct (op, observation) pairs.",
     trusted_base=[
         "Lean 4.33.0 kernel; axioms of every property theorem audited on each run (allowed: propext, Classical.choice, Quot.sound)",
